@@ -253,9 +253,9 @@ Proof.
   intros H. assert (Hsame : (if copy then sp else sp) = sp) by (destruct copy; reflexivity).
   destruct oa as [[c|c|c ts]|]; cbn [cg_graph option_map arg_name].
   - eexists; split; [reflexivity|]. unfold sp_merge. cbn [arg_content]. now rewrite Hsame.
-  - eexists; split; [reflexivity|]. unfold sp_merge. cbn [arg_content]. rewrite Hsame. now apply R_touch.
+  - eexists; split; [reflexivity|]. unfold sp_merge. cbn [arg_content]. now rewrite Hsame.
   - eexists; split; [reflexivity|].
-    pose proof (R_touch d sp H) as Ht. destruct copy; [|exact Ht].
+    pose proof H as Ht. destruct copy; [|exact Ht].
     pose proof (R_iadd c ts _ _ Ht) as Hi.
     pose proof Ht as (Eq & _ & _ & Hn & _ & Hk & Hiff & Hkn).
     unfold sp_merge; simpl. destruct ts as [|t r]; [simpl in *; now rewrite set_st_id in Hi|].
@@ -312,16 +312,16 @@ Proof. apply q_triples_NoDup. Qed.
 Lemma sp_union_NoDup sp p : NoDup (sp_union sp p).
 Proof. apply filter_NoDup, all_triples_NoDup. Qed.
 
-Lemma sp_triples_NoDup sp p g du : NoDup (sq sp) -> NoDup (sp_triples sp p g du).
+Lemma sp_triples_NoDup sp p g du : NoDup (sq sp) -> NoDup (sp_triples_code sp p g du).
 Proof.
-  intros H. unfold sp_triples. destruct g as [c|]; [destruct (du && (c =? 0))|destruct du];
+  intros H. unfold sp_triples_code. destruct g as [c|]; [destruct (du && (c =? 0))|destruct du];
     auto using sp_graph_NoDup, sp_union_NoDup.
 Qed.
 
 Lemma dispatch_spec sp p g du :
-  match du_dispatch du g with Some c => sp_graph sp c p | None => sp_union sp p end = sp_triples sp p g du.
+  match du_dispatch du g with Some c => sp_graph sp c p | None => sp_union sp p end = sp_triples_code sp p g du.
 Proof.
-  unfold du_dispatch, sp_triples. destruct du, g as [c|]; simpl; auto. destruct (c =? 0); auto.
+  unfold du_dispatch, sp_triples_code. destruct du, g as [c|]; simpl; auto. destruct (c =? 0); auto.
 Qed.
 
 Lemma cg_graph_read d sp oa :
@@ -337,7 +337,7 @@ Qed.
 
 Lemma cg_triples_spec d sp p ca kw du :
   R d sp ->
-  exists d1, cg_triples d p ca kw du = (d1, sp_triples sp p (eff_graph ca kw) du) /\ R d1 sp.
+  exists d1, cg_triples d p ca kw du = (d1, sp_triples_code sp p (eff_graph ca kw) du) /\ R d1 sp.
 Proof.
   intros H. unfold cg_triples.
   destruct (cg_spoc_read d sp ca H) as (d1 & E1 & R1). rewrite E1.
@@ -352,7 +352,7 @@ Qed.
 
 Lemma cg_contains_spec d sp p ca du :
   R d sp ->
-  exists d1, cg_contains d p ca du = (d1, negb (is_nil (sp_triples sp p (eff_graph ca None) du))) /\ R d1 sp.
+  exists d1, cg_contains d p ca du = (d1, negb (is_nil (sp_triples_code sp p (eff_graph ca None) du))) /\ R d1 sp.
 Proof.
   intros H. unfold cg_contains.
   destruct (cg_spoc_read d sp ca H) as (d1 & E1 & R1). rewrite E1.
@@ -469,28 +469,34 @@ Qed.
 
 Lemma cg_contexts_of_spec d sp t :
   R d sp ->
-  exists d1 l, cg_contexts_of d t = (d1, l) /\ R d1 sp /\ cenum l (sp_contexts_of (is_ds d) sp t) = true.
+  exists l, cg_contexts_of d t = (d, l) /\ cenum l (sp_contexts_of (is_ds d) sp t) = true.
 Proof.
   intros H. pose proof H as (Eq & _ & _ & Hn & _). unfold cg_contexts_of, sp_contexts_of. rewrite Eq.
   assert (Hc : NoDup (ctxs_of t (sq sp))) by now apply ctxs_of_NoDup.
   destruct (is_ds d).
-  - destruct (memb N.eqb 0 (ctxs_of t (sq sp))) eqn:Em.
-    + eexists; eexists; split; [reflexivity|]. split; auto.
-      apply (enum_ofb_spec _ N.eqb_spec). split; auto. intros x. rewrite N_sadd_In.
+  - eexists; split; [reflexivity|]. destruct (memb N.eqb 0 (ctxs_of t (sq sp))) eqn:Em.
+    + apply (enum_ofb_spec _ N.eqb_spec). split; auto. intros x. rewrite N_sadd_In.
       apply (memb_In _ N.eqb_spec) in Em. split; auto. intros [->|Hx]; auto.
-    + eexists; eexists; split; [reflexivity|]. split; [now apply R_know0|].
-      apply (enum_ofb_spec _ N.eqb_spec). split.
+    + apply (enum_ofb_spec _ N.eqb_spec). split.
       * apply NoDup_app_single; auto. now apply (memb_false _ N.eqb_spec).
       * intros x. rewrite N_sadd_In, in_app_iff. simpl. intuition.
-  - eexists; eexists; split; [reflexivity|]. split; auto.
+  - eexists; split; [reflexivity|].
     apply (enum_ofb_spec _ N.eqb_spec). split; auto. intros x; tauto.
 Qed.
 
-Lemma do_op_spec d sp o :
-  R d sp -> leaks sp o = false ->
-  exists d1 r, do_op d o = (d1, r) /\ R d1 (sp_step sp o) /\ res_ok (is_ds d) sp o r = true.
+Lemma tseteqb_tenum l s : NoDup l -> tseteqb l s = true -> tenum l s = true.
 Proof.
-  intros H Hleak.
+  intros Hn H. apply (enum_ofb_spec _ triple_eqb_spec). split; auto. now apply (seteqb_spec _ triple_eqb_spec).
+Qed.
+
+(* every operation keeps the simulation; its own answer is the specified one
+   unless the step is one of the two known-finding steps *)
+Lemma do_op_spec d sp o :
+  R d sp ->
+  exists d1 r, do_op d o = (d1, r) /\ R d1 (sp_step sp o)
+               /\ (waived sp o = false -> res_ok (is_ds d) sp o r = true).
+Proof.
+  intros H.
   destruct o as [t ca|l|p ca|oa|oa|c|p ca kw du|p ca|p ca du|t]; cbn [do_op sp_step].
   - (* add *)
     unfold cg_add. destruct (cg_spoc_spec d sp ca true H) as (d1 & E & HR). rewrite E.
@@ -509,20 +515,28 @@ Proof.
       * pose proof H as (_ & _ & Hf & _). rewrite Hf.
         pose proof (R_know d sp (FRESH_BASE + sf sp) H) as (K1 & K2 & K3 & K4 & K5 & K6 & K7 & K8).
         unfold R. cbn [st sq sk sf fresh] in *. repeat split; auto; try apply K7.
-    + pose proof H as (_ & _ & Hf & _). unfold res_ok, ds_graph_name. destruct oa as [a|]; cbn [list_eqb]; rewrite ?Hf, N.eqb_refl; reflexivity.
+    + intros _. pose proof H as (_ & _ & Hf & _). unfold res_ok, ds_graph_name. destruct oa as [a|]; cbn [list_eqb]; rewrite ?Hf, N.eqb_refl; reflexivity.
   - (* remove_graph *)
     eexists; eexists; split; [reflexivity|]. split; [|reflexivity].
     destruct oa as [a|]; cbn [ds_remove_graph]; auto. now apply R_remove_graph.
   - eexists; eexists; split; [reflexivity|]. split; [|reflexivity]. unfold cg_remove_context.
     apply (R_remove d sp pall (Some c) H).
-  - destruct (cg_triples_spec d sp p ca kw du H) as (d1 & E & HR).
+  - (* triples: the code's reading; the specified one unless the default_union alias bites *)
+    destruct (cg_triples_spec d sp p ca kw du H) as (d1 & E & HR).
     rewrite E. eexists; eexists; split; [reflexivity|]. split; auto.
-    cbn [res_ok]. apply tenum_refl, sp_triples_NoDup. apply H.
-  - destruct (cg_quads_spec d sp p ca H Hleak) as (d1 & l & E & HR & Hq).
-    rewrite E. eexists; eexists; split; [reflexivity|]. split; auto.
+    unfold waived. cbn [leaks aliases orb res_ok]. intros Hw. apply negb_false_iff in Hw.
+    apply tseteqb_tenum; auto. apply sp_triples_NoDup. apply H.
+  - (* quads: the state never changes; the answer is the specified one unless it leaks *)
+    unfold cg_quads. destruct (cg_spoc_read d sp ca H) as (d1 & E1 & R1).
+    eexists; eexists; split; [rewrite E1; reflexivity|]. split; auto.
+    unfold waived. cbn [aliases]. rewrite orb_false_r. intros Hleak.
+    destruct (cg_quads_spec d sp p ca H Hleak) as (d1' & l & E & HR & Hq).
+    unfold cg_quads in E. rewrite E1 in E. injection E as <- <-. exact Hq.
   - destruct (cg_contains_spec d sp p ca du H) as (d1 & E & HR).
-    rewrite E. eexists; eexists; split; [reflexivity|]. split; auto. cbn [res_ok]. apply Bool.eqb_reflx.
-  - destruct (cg_contexts_of_spec d sp t H) as (d1 & l & E & HR & Hc).
+    rewrite E. eexists; eexists; split; [reflexivity|]. split; auto.
+    unfold waived. cbn [leaks aliases orb res_ok]. intros Hw. apply negb_false_iff in Hw.
+    apply Bool.eqb_prop in Hw. rewrite Hw. apply Bool.eqb_reflx.
+  - destruct (cg_contexts_of_spec d sp t H) as (l & E & Hc).
     rewrite E. eexists; eexists; split; [reflexivity|]. split; auto.
 Qed.
 
@@ -536,7 +550,7 @@ Proof.
   intros H. unfold mem_probe. induction names as [|g r IH]; cbn [flat_map]; auto. f_equal; auto.
   apply map_ext. intros t.
   destruct (cg_contains_spec d sp (pat_of t) (CQuad (Some (GId g))) false H) as (d1 & E & _).
-  rewrite E. cbn [snd eff_graph arg_name sp_triples andb]. unfold sp_graph. now rewrite is_nil_q_triples, negb_involutive.
+  rewrite E. cbn [snd eff_graph arg_name sp_triples_code andb]. unfold sp_graph. now rewrite is_nil_q_triples, negb_involutive.
 Qed.
 
 (* the kind of front end never changes *)
@@ -575,7 +589,7 @@ Proof.
 Qed.
 
 Lemma is_ds_ds_graphs d : is_ds (fst (ds_graphs d)) = is_ds d.
-Proof. unfold ds_graphs. destruct (is_ds d) eqn:E; auto. destruct (memb N.eqb 0 (known (st d))); auto. Qed.
+Proof. unfold ds_graphs. destruct (is_ds d) eqn:E; auto. Qed.
 
 Lemma is_ds_cg_addN l : forall d, is_ds (cg_addN d l) = is_ds d.
 Proof.
@@ -597,7 +611,6 @@ Proof.
   - pose proof (is_ds_cg_quads d p ca) as H. destruct (cg_quads d p ca). exact H.
   - pose proof (is_ds_cg_contains d p ca du) as H. destruct (cg_contains d p ca du). exact H.
   - unfold cg_contexts_of. destruct (is_ds d) eqn:E; auto.
-    destruct (memb N.eqb 0 (ctxs_of t (quads (st d)))); auto.
 Qed.
 
 Lemma snapshot_spec c d sp :
@@ -612,12 +625,11 @@ Proof.
             (if is_ds d1 then cenum gs (sk sp) else nodupb N.eqb gs && cseteqb (sadd N.eqb 0 gs) (sk sp)) = true).
   { pose proof R1 as (_ & _ & _ & _ & Hn & Hk & Hiff & _).
     unfold ds_graphs. destruct (is_ds d1) eqn:Eds.
-    - destruct (memb N.eqb 0 (known (st d1))) eqn:Em.
-      + eexists; eexists; split; [reflexivity|]. split; auto.
-        apply (enum_ofb_spec _ N.eqb_spec). split; auto. intros x. rewrite Hiff.
+    - eexists; eexists; split; [reflexivity|]. split; auto.
+      destruct (memb N.eqb 0 (known (st d1))) eqn:Em.
+      + apply (enum_ofb_spec _ N.eqb_spec). split; auto. intros x. rewrite Hiff.
         apply (memb_In _ N.eqb_spec) in Em. split; auto. intros [->|Hx]; auto.
-      + eexists; eexists; split; [reflexivity|]. split; [now apply R_know0|].
-        apply (enum_ofb_spec _ N.eqb_spec). split.
+      + apply (enum_ofb_spec _ N.eqb_spec). split.
         * apply (NoDup_app_single _ Hn). now apply (memb_false _ N.eqb_spec).
         * intros x. rewrite Hiff, in_app_iff. simpl. intuition.
     - eexists; eexists; split; [reflexivity|]. split; auto.
@@ -656,29 +668,55 @@ Proof.
 Qed.
 
 (* ------------------------------------------------------------------ *)
-(* the model satisfies the checker on every well-formed history outside the
-   two known-finding regions *)
-Theorem spec_run_model c : forall ops d sp,
-  R d sp -> is_ds d = c_ds c -> leak_run sp ops = false ->
-  spec_run c sp ops (run c d ops) = true.
+(* the model satisfies the checker with ONLY the answers of the two kinds of
+   known-finding steps exempt - on EVERY history, no trigger hypothesis *)
+Theorem spec_run_w_model c : forall ops d sp,
+  R d sp -> is_ds d = c_ds c -> spec_run_w c sp ops (run c d ops) = true.
 Proof.
-  induction ops as [|o r IH]; intros d sp H Hk Hl; [reflexivity|].
-  cbn [leak_run] in *. apply orb_false_iff in Hl. destruct Hl as [L1 L2].
-  destruct (do_op_spec d sp o H L1) as (d1 & rs & E & R1 & Ok1). rewrite Hk in Ok1.
+  induction ops as [|o r IH]; intros d sp H Hk; [reflexivity|].
+  destruct (do_op_spec d sp o H) as (d1 & rs & E & R1 & Ok1). rewrite Hk in Ok1.
   pose proof (is_ds_do_op d o) as K1. rewrite E in K1. cbn [fst] in K1.
   destruct (snapshot_spec c d1 _ R1 (eq_trans K1 Hk)) as (d2 & sn & E2 & R2 & K2 & Ok2).
-  cbn [run]. rewrite E, E2. cbn [spec_run]. rewrite Ok1, Ok2. cbn [andb]. apply IH; auto.
+  cbn [run]. rewrite E, E2. cbn [spec_run_w]. rewrite Ok2.
+  destruct (waived sp o) eqn:Ew; cbn [orb andb]; [|rewrite (Ok1 eq_refl); cbn [andb]]; apply IH; auto.
+Qed.
+
+Theorem spec_ok_w_model c : spec_ok_w c (model_obs c) = true.
+Proof. unfold spec_ok_w, model_obs. apply spec_run_w_model; auto using R_init. Qed.
+
+(* without waived steps the waiving checker IS the strict one *)
+Lemma spec_run_w_strict c : forall ops sp o,
+  trig_run waived sp ops = false -> spec_run_w c sp ops o = spec_run c sp ops o.
+Proof.
+  induction ops as [|x r IH]; intros sp o Ht; destruct o as [|[rs sn] o']; auto.
+  cbn [trig_run] in Ht. apply orb_false_iff in Ht. destruct Ht as [T1 T2].
+  cbn [spec_run_w spec_run]. rewrite T1, (IH _ _ T2). reflexivity.
+Qed.
+
+Lemma trig_run_or f g : forall ops sp,
+  trig_run (fun sp o => f sp o || g sp o) sp ops = trig_run f sp ops || trig_run g sp ops.
+Proof.
+  induction ops as [|o r IH]; intros sp; auto. cbn [trig_run]. rewrite IH.
+  destruct (f sp o), (g sp o), (trig_run f (sp_step sp o) r), (trig_run g (sp_step sp o) r); reflexivity.
+Qed.
+
+Lemma kf_zero c : kf c = 0 <-> trig_run waived sp_init (c_ops c) = false.
+Proof.
+  unfold kf, waived, leak_run. rewrite trig_run_or.
+  destruct (trig_run aliases sp_init (c_ops c)), (trig_run leaks sp_init (c_ops c)); split; auto; discriminate.
 Qed.
 
 Theorem spec_ok_model c : kf c = 0 -> spec_ok c (model_obs c) = true.
 Proof.
-  unfold kf, spec_ok, model_obs. intros Hkf.
-  destruct (leak_run sp_init (c_ops c)) eqn:E2; [discriminate|].
-  apply spec_run_model; auto using R_init.
+  intros Hkf. apply kf_zero in Hkf. unfold spec_ok. rewrite <- (spec_run_w_strict c _ _ _ Hkf). apply spec_ok_w_model.
 Qed.
 
-Lemma kf_zero c : kf c = 0 <-> leak_run sp_init (c_ops c) = false.
-Proof. unfold kf. destruct (leak_run sp_init (c_ops c)); split; auto; discriminate. Qed.
+Theorem spec_run_model c : forall ops d sp,
+  R d sp -> is_ds d = c_ds c -> trig_run waived sp ops = false ->
+  spec_run c sp ops (run c d ops) = true.
+Proof.
+  intros ops d sp H Hk Ht. rewrite <- (spec_run_w_strict c _ _ _ Ht). now apply spec_run_w_model.
+Qed.
 
 (* ------------------------------------------------------------------ *)
 (* Isolation, directly on the model (no hypothesis on the state) *)
@@ -696,12 +734,12 @@ Lemma holds_cg_graph d oa copy g t :
 Proof.
   unfold holds. destruct oa as [[c|c|c ts]|]; cbn [cg_graph fst set_st st].
   - split; auto. intros [H|(_ & a & [= <-] & _ & [])]; auto.
-  - rewrite quads_touch. split; auto. intros [H|(_ & a & [= <-] & _ & [])]; auto.
+  - split; auto. intros [H|(_ & a & [= <-] & _ & [])]; auto.
   - destruct copy; cbn [fst set_st st].
-    + rewrite iadd_quads, fold_q_add_In, quads_touch. split.
+    + rewrite iadd_quads, fold_q_add_In. split.
       * intros [H|(t' & H1 & [= -> ->])]; auto. right. split; auto. exists (GForeign c ts). auto.
       * intros [H|(_ & a & [= <-] & -> & H)]; auto. right. exists t. auto.
-    + rewrite quads_touch. split; auto. intros [H|(Hc & _)]; auto. discriminate.
+    + split; auto. intros [H|(Hc & _)]; auto. discriminate.
   - split; auto. intros [H|(_ & a & [=] & _)]; auto.
 Qed.
 
@@ -977,8 +1015,8 @@ Proof.
 Qed.
 
 (* graphs(triple) / contexts(triple): the graphs holding the triple - and, for
-   a Dataset, the default graph in any case (it is re-created and yielded when
-   it is not among them) *)
+   a Dataset, the default graph in any case (yielded, not registered, when it
+   is not among them) *)
 Lemma contexts_of_triple d t g :
   In g (snd (cg_contexts_of d t)) <-> holds d g t \/ (is_ds d = true /\ g = 0).
 Proof.
@@ -992,8 +1030,16 @@ Qed.
 
 Lemma contexts_of_no_quad_write d t : quads (st (fst (cg_contexts_of d t))) = quads (st d).
 Proof.
-  unfold cg_contexts_of. destruct (is_ds d); auto. destruct (memb N.eqb 0 (ctxs_of t (quads (st d)))); auto.
+  unfold cg_contexts_of. destruct (is_ds d); auto.
 Qed.
+
+(* a listing never changes the state at all (since 6844ed54) *)
+Lemma contexts_of_state d t : fst (cg_contexts_of d t) = d.
+Proof. unfold cg_contexts_of. destruct (is_ds d); reflexivity. Qed.
+Lemma ds_graphs_state d : fst (ds_graphs d) = d.
+Proof. unfold ds_graphs. destruct (is_ds d); reflexivity. Qed.
+Lemma ds_graphs_hist_refuted : exists d, known (st (fst (ds_graphs_hist d))) <> known (st d).
+Proof. exists (ds_init true). vm_compute. discriminate. Qed.
 
 (* graph()/add_graph(): the name handed back is listed afterwards, and the
    graph of that name holds exactly what it held plus what a foreign Graph
@@ -1015,4 +1061,51 @@ Proof.
   cbn [fst snd option_map] in *. subst c. unfold holds in *. cbn [set_st st st_add_graph quads]. rewrite Hg. split.
   - intros [H|(_ & a' & [= <-] & H1 & H2)]; auto.
   - intros [H|[H1 H2]]; auto. right. split; auto. eauto.
+Qed.
+
+(* ------------------------------------------------------------------ *)
+(* round 4: finding F20 - under default_union a read that NAMES the default
+   graph is answered from the merged view *)
+Lemma default_union_alias_refuted :
+  exists d t, (forall t', ~ holds d 0 t')
+    /\ snd (cg_contains d (pat_of t) (CQuad (Some (GId 0))) true) = true
+    /\ snd (cg_triples d pall CTriple (Some (GView 0)) true) = [t]
+    /\ snd (cg_quads d pall (CQuad (Some (GId 0)))) = [] /\ view_len d 0 = 0.
+Proof.
+  exists (cg_add (ds_init true) (1, 2, 3) (CQuad (Some (GId 1)))), (1, 2, 3).
+  split; [|repeat split; vm_compute; reflexivity].
+  intros t' H. unfold holds in H. vm_compute in H. destruct H as [H|[]]. discriminate.
+Qed.
+
+Definition w_f20 : case :=
+  {| c_ds := true; c_names := [0; 1]; c_vocab := [(1, 2, 3)];
+     c_ops := [OAdd (1, 2, 3) (CQuad (Some (GId 1))); OContains (pat_of (1, 2, 3)) (CQuad (Some (GId 0))) true] |}.
+
+Lemma alias_case_refuted : exists c, kf c = 2 /\ spec_ok c (model_obs c) = false /\ spec_ok_w c (model_obs c) = true.
+Proof. exists w_f20. repeat split; vm_compute; reflexivity. Qed.
+
+(* what the boolean result checker says, case by case *)
+Lemma res_ok_reading b sp :
+  (forall p ca kw du l, res_ok b sp (OTriples p ca kw du) (RTriples l) = true <->
+     NoDup l /\ forall t, In t l <-> In t (sp_triples sp p (eff_graph ca kw) du))
+  /\ (forall p ca l, res_ok b sp (OQuads p ca) (RQuads l) = true <->
+     NoDup l /\ forall q, In q l <-> In q (sq sp) /\ qsel p (eff_graph ca None) q = true)
+  /\ (forall p ca du x, res_ok b sp (OContains p ca du) (RBool x) = true <->
+     (x = true <-> sp_triples sp p (eff_graph ca None) du <> []))
+  /\ (forall t l, res_ok b sp (OContexts t) (RNames l) = true <->
+     NoDup l /\ forall g, In g l <-> (In (t, g) (sq sp) \/ (b = true /\ g = 0))).
+Proof.
+  split; [|split; [|split]].
+  - intros. cbn [res_ok]. unfold tenum. rewrite (enum_ofb_spec _ triple_eqb_spec). reflexivity.
+  - intros. cbn [res_ok]. unfold qenum, sp_quads. rewrite (enum_ofb_spec _ quad_eqb_spec). unfold enum_of, seteq.
+    split; intros [H1 H2]; split; auto; intros q; rewrite H2, filter_In; tauto.
+  - intros. cbn [res_ok]. destruct (sp_triples sp p (eff_graph ca None) du) as [|y r]; destruct x; cbn.
+    + split; [discriminate|]. intros [H _]. exfalso. apply (H eq_refl). reflexivity.
+    + split; auto. intros _. split; [discriminate|]. intros H. exfalso. apply H. reflexivity.
+    + split; auto. intros _. split; auto. intros _. discriminate.
+    + split; [discriminate|]. intros [_ H]. apply H. discriminate.
+  - intros. cbn [res_ok]. unfold cenum, sp_contexts_of. rewrite (enum_ofb_spec _ N.eqb_spec). unfold enum_of, seteq.
+    destruct b.
+    + split; intros [H1 H2]; split; auto; intros g; rewrite H2, N_sadd_In, in_ctxs_of; intuition.
+    + split; intros [H1 H2]; split; auto; intros g; rewrite H2, in_ctxs_of; intuition discriminate.
 Qed.
